@@ -1,6 +1,6 @@
 (* Proofs about the quadrature tables generated from uxarray/grid/area.py (Gen/C05_tables.v):
    finite obligations, discharged by vm_compute through a boolean checker proved sound here. *)
-From Coq Require Import ZifyBool.
+From Coq Require Import Reals Lra Psatz ZifyBool.
 From Verif Require Import Base C05_rules.
 
 Local Open Scope Z_scope.
@@ -136,6 +136,216 @@ Proof.
   rewrite c05_rule2_exactb_fast_eq. exact (fun H => H).
 Qed.
 
+Local Open Scope R_scope.
+
+Definition c05_apx (p : c05_iv) (r : R) : Prop :=
+  (0 <= fst p)%Z /\ (0 <= snd p)%Z /\ IZR (fst p) <= r * IZR c05_E <= IZR (fst p + snd p).
+
+Lemma c05_E_pos : 1 <= IZR c05_E.
+Proof. apply IZR_le. unfold c05_E, c05_Ebits. lia. Qed.
+
+Lemma c05_IZR_div_floor a b : (0 < b)%Z ->
+  IZR (a / b) * IZR b <= IZR a < (IZR (a / b) + 1) * IZR b.
+Proof.
+  intros Hb. pose proof (Z.mul_div_le a b Hb). pose proof (Z.mul_succ_div_gt a b Hb).
+  split.
+  - rewrite <- mult_IZR. apply IZR_le. lia.
+  - replace ((IZR (a / b) + 1) * IZR b) with (IZR (b * Z.succ (a / b))).
+    + apply IZR_lt. lia.
+    + rewrite mult_IZR, succ_IZR. ring.
+Qed.
+
+Lemma c05_apx_in D x : (0 < D)%Z -> (0 <= x)%Z -> c05_apx (c05_iv_in D x) (IZR x / IZR D).
+Proof.
+  intros HD Hx. unfold c05_apx, c05_iv_in. cbn [fst snd].
+  rewrite Z.shiftl_mul_pow2 by (unfold c05_Ebits; lia). fold c05_E.
+  assert (HE : (0 < c05_E)%Z) by (unfold c05_E, c05_Ebits; lia).
+  split; [apply Z.div_pos; nia|]. split; [lia|].
+  pose proof (c05_IZR_div_floor (x * c05_E) D HD) as [H1 H2]. rewrite mult_IZR in H1, H2.
+  assert (0 < IZR D) by (apply IZR_lt; exact HD).
+  rewrite plus_IZR. unfold Rdiv. split.
+  - apply Rmult_le_reg_r with (IZR D); [assumption|]. replace (IZR x * / IZR D * IZR c05_E * IZR D) with (IZR x * IZR c05_E) by (field; lra). exact H1.
+  - apply Rmult_le_reg_r with (IZR D); [assumption|]. replace (IZR x * / IZR D * IZR c05_E * IZR D) with (IZR x * IZR c05_E) by (field; lra). lra.
+Qed.
+
+Lemma c05_apx_one : c05_apx c05_iv_one 1.
+Proof.
+  unfold c05_apx, c05_iv_one. cbn [fst snd]. pose proof c05_E_pos.
+  split; [unfold c05_E, c05_Ebits; lia|]. split; [lia|]. rewrite Z.add_0_r. lra.
+Qed.
+
+Lemma c05_apx_mul p q r s :
+  c05_apx p r -> c05_apx q s -> 0 <= r <= 1 -> 0 <= s <= 1 -> c05_apx (c05_iv_mul p q) (r * s).
+Proof.
+  intros (Hu & Heu & Hp1 & Hp2) (Hv & Hev & Hq1 & Hq2) Hr Hs.
+  unfold c05_apx, c05_iv_mul. cbn [fst snd].
+  rewrite Z.shiftr_div_pow2 by (unfold c05_Ebits; lia). fold c05_E.
+  assert (HE : (0 < c05_E)%Z) by (unfold c05_E, c05_Ebits; lia).
+  pose proof c05_E_pos as HE1.
+  split; [apply Z.div_pos; nia|]. split; [nia|].
+  pose proof (c05_IZR_div_floor (fst p * fst q) c05_E HE) as [H1 H2]. rewrite mult_IZR in H1, H2.
+  set (u := IZR (fst p)) in *. set (v := IZR (fst q)) in *. set (E := IZR c05_E) in *.
+  set (w := IZR (fst p * fst q / c05_E)) in *.
+  rewrite plus_IZR in Hp2, Hq2. fold u in Hp2. fold v in Hq2. set (eu := IZR (snd p)) in *. set (ev := IZR (snd q)) in *.
+  assert (0 <= u) by (apply IZR_le; exact Hu). assert (0 <= v) by (apply IZR_le; exact Hv).
+  assert (0 <= eu) by (apply IZR_le; exact Heu). assert (0 <= ev) by (apply IZR_le; exact Hev).
+  rewrite !plus_IZR, mult_IZR. fold eu ev w. change (IZR 1) with 1.
+  split.
+  - (* w E <= u v <= (rE)(sE) *)
+    apply Rmult_le_reg_r with E; [lra|]. 
+    assert (u * v <= (r * E) * (s * E)) by (apply Rmult_le_compat; lra). nra.
+  - apply Rmult_le_reg_r with E; [lra|].
+    assert (0 <= r * E) by (apply Rmult_le_pos; lra). assert (0 <= s * E) by (apply Rmult_le_pos; lra).
+    assert ((r * E) * (s * E) <= (u + eu) * (v + ev)) by (apply Rmult_le_compat; lra).
+    assert (u <= E) by nra. assert (v <= E) by nra.
+    assert (0 <= eu * ev) by (apply Rmult_le_pos; lra).
+    assert (eu * ev <= eu * ev * E) by nra.
+    assert (u * ev <= E * ev) by (apply Rmult_le_compat_r; lra).
+    assert (v * eu <= E * eu) by (apply Rmult_le_compat_r; lra).
+    replace (r * s * E * E) with (r * E * (s * E)) by ring.
+    replace ((u + eu) * (v + ev)) with (u * v + u * ev + v * eu + eu * ev) in * by ring.
+    replace ((w + (1 + eu + ev + eu * ev)) * E) with ((w + 1) * E + E * ev + E * eu + eu * ev * E) by ring.
+    lra.
+Qed.
+
+Lemma c05_apx_add p q r s : c05_apx p r -> c05_apx q s -> c05_apx (c05_iv_add p q) (r + s).
+Proof.
+  intros (Hu & Heu & Hp1 & Hp2) (Hv & Hev & Hq1 & Hq2). unfold c05_apx, c05_iv_add. cbn [fst snd].
+  split; [lia|]. split; [lia|]. rewrite !plus_IZR in *. lra.
+Qed.
+
+Lemma c05_apx_sum {A} (f : A -> c05_iv) (g : A -> R) l :
+  (forall x, In x l -> c05_apx (f x) (g x)) ->
+  c05_apx (c05_iv_sum (map f l)) (fold_right Rplus 0 (map g l)).
+Proof.
+  induction l as [|x l IH]; intros H; cbn [map fold_right c05_iv_sum].
+  - unfold c05_apx. cbn. repeat split; try lia; lra.
+  - apply c05_apx_add; [apply H; left; reflexivity|]. apply IH. intros y Hy. apply H. right. exact Hy.
+Qed.
+
+Lemma c05_pow01 r a : 0 <= r <= 1 -> 0 <= r ^ a <= 1.
+Proof. intros H. induction a as [|a IH]; cbn [pow]; [lra|nra]. Qed.
+
+Lemma c05_apx_pows x rx : c05_apx x rx -> 0 <= rx <= 1 ->
+  forall n acc racc a, c05_apx acc racc -> 0 <= racc <= 1 -> (a <= n)%nat ->
+  c05_apx (nth a (c05_iv_pows_from x acc n) (0%Z, 0%Z)) (racc * rx ^ a).
+Proof.
+  intros Hx Hrx. induction n as [|n IH]; intros acc racc a Hacc Hr Ha.
+  - assert (a = 0%nat) by lia. subst a. cbn [c05_iv_pows_from nth pow]. rewrite Rmult_1_r. exact Hacc.
+  - destruct a as [|a]; cbn [c05_iv_pows_from nth pow]; [rewrite Rmult_1_r; exact Hacc|].
+    replace (racc * (rx * rx ^ a)) with ((racc * rx) * rx ^ a) by ring.
+    apply IH; [apply c05_apx_mul; assumption| nra | lia].
+Qed.
+
+Lemma c05_pow_div_cancel x D a : D <> 0 -> (x / D) ^ a * D ^ a = x ^ a.
+Proof. intros HD. induction a as [|a IH]; cbn [pow]; [ring|]. rewrite <- IH. field. exact HD. Qed.
+
+Lemma c05_term_scale w x y D a b : D <> 0 ->
+  w / D * (x / D) ^ a * (y / D) ^ b * D ^ S (a + b) = w * x ^ a * y ^ b.
+Proof.
+  intros HD. rewrite <- (c05_pow_div_cancel x D a HD), <- (c05_pow_div_cancel y D b HD).
+  cbn [pow]. rewrite pow_add. field. exact HD.
+Qed.
+
+Lemma c05_moment2_real (D : Z) (l : list (Z * Z * Z * Z)) a b : (0 < D)%Z ->
+  fold_right Rplus 0 (map (fun pw => IZR (snd pw) / IZR D * (IZR (fst (fst (fst pw))) / IZR D) ^ a
+                                     * (IZR (snd (fst (fst pw))) / IZR D) ^ b) l) * IZR D ^ S (a + b) =
+  IZR (c05_sumZ (map (fun pw => snd pw * fst (fst (fst pw)) ^ Z.of_nat a * snd (fst (fst pw)) ^ Z.of_nat b)%Z l)).
+Proof.
+  intros HD. assert (IZR D <> 0) by (apply not_0_IZR; lia).
+  unfold c05_sumZ. induction l as [|pw l IH]; cbn [map fold_right]; [cbn; ring|].
+  rewrite plus_IZR, <- IH, Rmult_plus_distr_r. f_equal.
+  rewrite c05_term_scale by assumption. rewrite !mult_IZR, <- !pow_IZR. reflexivity.
+Qed.
+
+Lemma c05_iv_closeb_sound s r mom d p q :
+  c05_apx s r -> r * IZR d = IZR mom -> (0 < d)%Z -> (0 < q)%Z ->
+  c05_iv_closeb s p q = true -> c05_close mom d p q.
+Proof.
+  intros (Hu & He & H1 & H2) Hr Hd Hq Hb. unfold c05_iv_closeb in Hb. apply andb_true_iff in Hb.
+  destruct Hb as [Hb1 Hb2]. apply Z.leb_le in Hb1, Hb2. apply IZR_le in Hb1, Hb2.
+  unfold c05_close. apply le_IZR.
+  rewrite !mult_IZR, !minus_IZR, !mult_IZR, ?plus_IZR in *. rewrite abs_IZR, minus_IZR, !mult_IZR.
+  pose proof c05_E_pos as HE. assert (0 < IZR d) by (apply IZR_lt; exact Hd). assert (0 < IZR q) by (apply IZR_lt; exact Hq).
+  assert (Htd : 0 < IZR c05_tol_den) by (apply IZR_lt; reflexivity).
+  rewrite <- Hr.
+  set (E := IZR c05_E) in *. set (S := IZR (fst s)) in *. set (e := IZR (snd s)) in *.
+  set (P := IZR p) in *. set (Q := IZR q) in *. set (DD := IZR d) in *.
+  set (td := IZR c05_tol_den) in *. set (tn := IZR c05_tol_num) in *.
+  replace (r * DD * Q - P * DD) with (DD * (r * Q - P)) by ring.
+  rewrite Rabs_mult, (Rabs_right DD) by lra.
+  assert (Hk : Rabs (r * Q - P) * td <= tn * Q).
+  { apply Rmult_le_reg_r with E; [lra|]. 
+    assert (K1 : (r * E * Q - P * E) * td <= tn * (E * Q)).
+    { apply Rle_trans with (((S + e) * Q - P * E) * td); [|exact Hb1].
+      apply Rmult_le_compat_r; [lra|]. nra. }
+    assert (K2 : (P * E - r * E * Q) * td <= tn * (E * Q)).
+    { apply Rle_trans with ((P * E - S * Q) * td); [|exact Hb2].
+      apply Rmult_le_compat_r; [lra|]. nra. }
+    unfold Rabs. destruct (Rcase_abs (r * Q - P)); nra. }
+  replace (DD * Rabs (r * Q - P) * td) with (DD * (Rabs (r * Q - P) * td)) by ring.
+  replace (tn * (DD * Q)) with (DD * (tn * Q)) by ring.
+  apply Rmult_le_compat_l; lra.
+Qed.
+
+Lemma c05_fact_pos n : (0 < c05_fact n)%Z.
+Proof. induction n as [|n IH]; [reflexivity|]. cbn [c05_fact]. nia. Qed.
+
+(* the enclosure checker implies the exact statement about the rule *)
+Lemma c05_rule2_okb_iv_sound D r deg : c05_rule2_okb_iv D r deg = true -> c05_rule2_ok D r deg.
+Proof.
+  unfold c05_rule2_okb_iv. rewrite !andb_true_iff. intros [[[[HD H1] H2] H3] H4].
+  apply Z.ltb_lt in HD. rewrite forallb_forall in H2, H3.
+  assert (HDr : 0 < IZR D) by (apply IZR_lt; exact HD).
+  split.
+  - apply Nat.eqb_eq. exact H1.
+  - apply Forall_forall. intros w Hw. specialize (H2 w Hw). lia.
+  - apply Forall_forall. intros p Hp. specialize (H3 p Hp). cbv zeta in H3. lia.
+  - intros a b Hab. unfold c05_rule2_exactb_iv in H4. cbv zeta in H4. rewrite forallb_forall in H4.
+    specialize (H4 (a, b) (c05_monomials_in deg a b Hab)). cbn [fst snd] in H4. rewrite map_map in H4. cbn [fst snd] in H4.
+    set (g := fun pw : Z * Z * Z * Z =>
+                (IZR (snd pw) / IZR D * (1 * (IZR (fst (fst (fst pw))) / IZR D) ^ a)
+                 * (1 * (IZR (snd (fst (fst pw))) / IZR D) ^ b))%R).
+    eapply (c05_iv_closeb_sound _ (fold_right Rplus 0%R (map g (combine (fst r) (snd r))))); [| | | |exact H4].
+    + apply c05_apx_sum. intros [[[x y] z] w] Hin. cbn [fst snd].
+      pose proof (in_combine_l _ _ _ _ Hin) as Hp. pose proof (in_combine_r _ _ _ _ Hin) as Hw.
+      specialize (H2 w Hw). specialize (H3 _ Hp). cbv zeta in H3. cbn [fst snd] in H3.
+      assert (Bx : (0 <= IZR x / IZR D <= 1)%R).
+      { split; [apply Rmult_le_pos; [apply IZR_le; lia|left; apply Rinv_0_lt_compat; exact HDr]|].
+        apply Rmult_le_reg_r with (IZR D); [exact HDr|]. unfold Rdiv. rewrite Rmult_assoc, Rinv_l, Rmult_1_r, Rmult_1_l by lra.
+        apply IZR_le. lia. }
+      assert (By : (0 <= IZR y / IZR D <= 1)%R).
+      { split; [apply Rmult_le_pos; [apply IZR_le; lia|left; apply Rinv_0_lt_compat; exact HDr]|].
+        apply Rmult_le_reg_r with (IZR D); [exact HDr|]. unfold Rdiv. rewrite Rmult_assoc, Rinv_l, Rmult_1_r, Rmult_1_l by lra.
+        apply IZR_le. lia. }
+      assert (Bw : (0 <= IZR w / IZR D <= 1)%R).
+      { split; [apply Rmult_le_pos; [apply IZR_le; lia|left; apply Rinv_0_lt_compat; exact HDr]|].
+        apply Rmult_le_reg_r with (IZR D); [exact HDr|]. unfold Rdiv. rewrite Rmult_assoc, Rinv_l, Rmult_1_r, Rmult_1_l by lra.
+        apply IZR_le. lia. }
+      pose proof (c05_pow01 _ a Bx) as Pa. pose proof (c05_pow01 _ b By) as Pb.
+      unfold g. cbn [fst snd].
+      apply c05_apx_mul.
+      * apply c05_apx_mul; [apply c05_apx_in; lia| |exact Bw|lra].
+        apply (c05_apx_pows _ _ (c05_apx_in D x HD ltac:(lia)) Bx deg c05_iv_one 1%R a c05_apx_one); [lra|lia].
+      * apply (c05_apx_pows _ _ (c05_apx_in D y HD ltac:(lia)) By deg c05_iv_one 1%R b c05_apx_one); [lra|lia].
+      * nra.
+      * lra.
+    + rewrite <- pow_IZR. unfold c05_moment2.
+      rewrite <- (c05_moment2_real D (combine (fst r) (snd r)) a b HD). f_equal. f_equal.
+      apply map_ext. intros pw. unfold g. ring.
+    + apply Z.pow_pos_nonneg; lia.
+    + apply c05_fact_pos.
+Qed.
+
+Lemma c05_tri_okb_iv_sound n : c05_tri_okb_iv n = true -> c05_tri_ok n.
+Proof.
+  unfold c05_tri_okb_iv, c05_tri_ok. destruct (c05_tri_rule n) as [r|]; [|discriminate].
+  intros H. exists r. split; [reflexivity|]. apply c05_rule2_okb_iv_sound. exact H.
+Qed.
+
+Local Close Scope R_scope.
+Local Open Scope Z_scope.
+
 Lemma c05_gauss_1_ok : c05_gauss_ok 1.   Proof. apply c05_gauss_okb_fast_sound. vm_compute. reflexivity. Qed.
 Lemma c05_gauss_2_ok : c05_gauss_ok 2.   Proof. apply c05_gauss_okb_fast_sound. vm_compute. reflexivity. Qed.
 Lemma c05_gauss_3_ok : c05_gauss_ok 3.   Proof. apply c05_gauss_okb_fast_sound. vm_compute. reflexivity. Qed.
@@ -146,11 +356,11 @@ Lemma c05_gauss_7_ok : c05_gauss_ok 7.   Proof. apply c05_gauss_okb_fast_sound. 
 Lemma c05_gauss_8_ok : c05_gauss_ok 8.   Proof. apply c05_gauss_okb_fast_sound. vm_compute. reflexivity. Qed.
 Lemma c05_gauss_9_ok : c05_gauss_ok 9.   Proof. apply c05_gauss_okb_fast_sound. vm_compute. reflexivity. Qed.
 Lemma c05_gauss_10_ok : c05_gauss_ok 10. Proof. apply c05_gauss_okb_fast_sound. vm_compute. reflexivity. Qed.
-Lemma c05_tri_1_ok : c05_tri_ok 1.       Proof. apply c05_tri_okb_fast_sound. vm_compute. reflexivity. Qed.
-Lemma c05_tri_4_ok : c05_tri_ok 4.       Proof. apply c05_tri_okb_fast_sound. vm_compute. reflexivity. Qed.
-Lemma c05_tri_8_ok : c05_tri_ok 8.       Proof. apply c05_tri_okb_fast_sound. vm_compute. reflexivity. Qed.
-Lemma c05_tri_10_ok : c05_tri_ok 10.     Proof. apply c05_tri_okb_fast_sound. vm_compute. reflexivity. Qed.
-Lemma c05_tri_12_ok : c05_tri_ok 12.     Proof. apply c05_tri_okb_fast_sound. vm_compute. reflexivity. Qed.
+Lemma c05_tri_1_ok : c05_tri_ok 1.       Proof. apply c05_tri_okb_iv_sound. vm_compute. reflexivity. Qed.
+Lemma c05_tri_4_ok : c05_tri_ok 4.       Proof. apply c05_tri_okb_iv_sound. vm_compute. reflexivity. Qed.
+Lemma c05_tri_8_ok : c05_tri_ok 8.       Proof. apply c05_tri_okb_iv_sound. vm_compute. reflexivity. Qed.
+Lemma c05_tri_10_ok : c05_tri_ok 10.     Proof. apply c05_tri_okb_iv_sound. vm_compute. reflexivity. Qed.
+Lemma c05_tri_12_ok : c05_tri_ok 12.     Proof. apply c05_tri_okb_iv_sound. vm_compute. reflexivity. Qed.
 
 (* the supported orders are exactly these; every other order makes the function fall through *)
 Lemma c05_gauss_supported n : c05_gauss_rule n <> None <-> 1 <= n <= 10.
